@@ -11,7 +11,7 @@ import os
 import shutil
 import tempfile
 
-from ..ch import S, Fail, absorb, run_jobs
+from ..ch import S, Fail, absorb, run_jobs, untraced
 from ..common import run_native
 
 FUNCTIONS = [
@@ -278,6 +278,65 @@ def dict_only(fmt="yaml"):
     return harness
 
 
+def _same_basename_once(overwrite, fmt):
+    """Two sub-files with the same base name in different source directories: save writes sub-files flat, next to the main file.
+    It may refuse; if it succeeds the saved path must reproduce both sections."""
+    from jsonargparse import ActionConfigFile, ArgumentParser, strip_meta
+
+    from ..fixtures import Inner
+    from ..shapes import same
+
+    def parser():
+        p = ArgumentParser(exit_on_error=False)
+        p.add_argument("--cfg", action=ActionConfigFile)
+        p.add_argument("--train", type=Inner, default=Inner())
+        p.add_argument("--eval", type=Inner, default=Inner())
+        return p
+
+    root = tempfile.mkdtemp(prefix="c18s_")
+    cwd = os.getcwd()
+    try:
+        src, out = os.path.join(root, "src"), os.path.join(root, "out")
+        for d in (os.path.join(src, "train"), os.path.join(src, "eval"), out):
+            os.makedirs(d)
+        with open(os.path.join(src, "train", "params.yaml"), "w") as f:
+            f.write("k: 64\nr: 0.5\n")
+        with open(os.path.join(src, "eval", "params.yaml"), "w") as f:
+            f.write("k: 1\nr: 0.0\n")
+        with open(os.path.join(src, "main.yaml"), "w") as f:
+            f.write("train: train/params.yaml\neval: eval/params.yaml\n")
+        p = parser()
+        cfg = p.parse_path(os.path.join(src, "main.yaml"))
+        expected = strip_meta(cfg).clone()
+        target = os.path.join(out, "main.yaml" if fmt == "yaml" else "main.json")
+        try:
+            p.save(cfg, target, format=fmt, overwrite=overwrite, multifile=True)
+        except Exception:
+            return True  # a refusal is acceptable: nothing existed before, so nothing can have been destroyed
+        back = strip_meta(parser().parse_path(target)).clone()
+        for ns in (back, expected):
+            ns.pop("cfg", None)
+        r = same(expected, back)
+        if r:
+            return Fail("save:saved-path-parses-to-different-configuration", where=r, layout="same-basename", overwrite=overwrite)
+        return True
+    finally:
+        os.chdir(cwd)
+        shutil.rmtree(root, ignore_errors=True)
+
+
+def same_basename(fmt="yaml"):
+    _same_basename_once(False, fmt)
+
+    def harness():
+        overwrite = S.flag("overwrite")
+        S.note("fault:none")
+        with untraced():
+            return _same_basename_once(overwrite, fmt)
+
+    return harness
+
+
 def main(rep, tier):
     rep.functions = FUNCTIONS
     rep.rule = ("one path per fault schedule (overwrite, multifile, target exists, sub-file exists, loaded from sub-files, fault kind, invalid value); "
@@ -293,7 +352,8 @@ def main(rep, tier):
     ]
     fmts = ["yaml", "json"] if tier == "quick" else ["yaml", "json", "json_indented"]
     results = run_jobs([dict(module="c18", func="schedule", kwargs=dict(fmt=f), timeout=600) for f in fmts]
-                       + [dict(module="c18", func="dict_only", kwargs=dict(fmt=f), timeout=300) for f in fmts])
+                       + [dict(module="c18", func="dict_only", kwargs=dict(fmt=f), timeout=300) for f in fmts]
+                       + [dict(module="c18", func="same_basename", kwargs=dict(fmt="yaml"), timeout=300)])
     fails = absorb(rep, results, require_tags=tuple("fault:" + f for f in FAULTS))
     groups = {}
     for cls, samples in fails.items():
